@@ -44,6 +44,9 @@ def gen_case(rng, plausible=True, malformed=False):
                     cmds.append(rng.choice([[14, rng.randrange(9)], [11], [6], [7], [12, rng.randrange(2)]]))
                 if rng.random() < 0.07:
                     cmds.append(rng.choice([[17, rng.randrange(n)], [18, rng.randrange(n)], [17, rng.choice(others)]]))
+                if rng.random() < 0.06:
+                    # the callback pumps the loop itself: process_signals() dispatches the most urgent pending batch right here
+                    cmds.insert(rng.randrange(len(cmds) + 1), [24])
                 if malformed and rng.random() < 0.03:
                     cmds.append([16])
                 if malformed and rng.random() < 0.3:
@@ -243,6 +246,15 @@ def gen_focus_case(rng, prop):
         dlg = spec(inputs=[("1", [], [2]), ("2", [[17, 0]], [2]), ("3", [], [0])], ireq=0 if quiet else 1,
                    skip=1 if rng.random() < 0.5 else 0)
         typed = [L(rng.choice(["1", "3"]))] + [L(rng.choice(["1", "2", "3", "x", "c"])) for _ in range(rng.randrange(1, 8))]
+        return [3000, [hub, dlg], typed, [], 0, [[0, [3, 0, 0]], [1]]]
+    if prop in ("C05", "C09", "C10") and rng.random() < 0.12:
+        # a modal screen pumps the loop itself (App.get_event_loop().process_signals()) while its own close is pending and
+        # the caller has a redraw queued: the pump must stop with the modal loop; the caller is redrawn only after the push returned
+        hub = spec(inputs=[("1", [[6], [1, 1, 0]], [rng.choice([0, 1])]), ("2", [], [2]), ("3", [[24], [1, 1, 0]], [0])],
+                   refresh=[[15, 1, [], [[15, 3, [[24]], []]]]] if rng.random() < 0.3 else [])
+        dlg = spec(inputs=[("1", [[4], [24]], [0]), ("2", [[24], [4], [24]], [rng.choice([0, 2])]), ("3", [[6], [4], [24]], [0])],
+                   closed=[[24]] if rng.random() < 0.3 else [], show=[[15, 2, [], [[24]]]] if rng.random() < 0.3 else [])
+        typed = [L(rng.choice(["1", "1", "2", "3", "c", "r"])) for _ in range(rng.randrange(3, 12))]
         return [3000, [hub, dlg], typed, [], 0, [[0, [3, 0, 0]], [1]]]
     if prop in ("C05", "C02", "C03") and rng.random() < 0.15:
         # a dialog reports its result to its caller through a signal of the application and closes: the caller connected
